@@ -190,6 +190,9 @@ func propC08(c *Ctx) {
 		}
 	}
 
+	rdc := c.Rule("deep-copy", "in every Copy method a mutable component of Copier type placed into the result comes from Copy() or is rebuilt, never the receiver's own component", 2)
+	ruleDeepCopy(c, rdc)
+
 	ri := c.Rule("import-copy", "BuiltinModule.Import returns a value derived from a Copy() of Attrs, never Attrs itself", 1)
 	imp := l.Method(modPath, "BuiltinModule", "Import")
 	_, fAttrs := l.structField(modPath, "BuiltinModule", "Attrs")
@@ -381,6 +384,8 @@ func propC12(c *Ctx) {
 		c.Check(rc, "checkCyclicImports walks the parent chain", l.Pos(chk.Pos()), walks, "recurses / loops along Compiler.parent", "the cycle check does not follow the chain of importing compilers: cycles longer than one step are missed")
 	}
 
+	rdc := c.Rule("deep-copy", "Copy() of module values is deep: mutable components of Copier type are copied, not shared (builtin module values are private per VM)", 2)
+	ruleDeepCopy(c, rdc)
 	rfp := c.Rule("fork-parent", "every compiler fork records the forking compiler as its parent on every path (the cyclic-import check walks this chain)", 2)
 	ruleForkParent(c, rfp)
 	rod := c.Rule("operand-decode", "every multi-byte operand the VM reads (module indexes among them) is assembled big-endian from adjacent bytes, as the compiler encodes it", 10)
@@ -502,6 +507,31 @@ func ruleEmitPair(c *Ctx, rule string) {
 				}
 			}
 			c.Check(rule, key, l.Pos(st.ci.Pos()), good, "dominated by an OpLoadModule emission with the same module index", "the store-module instruction is not paired with a load-module of the same module index: the module body runs on every import or another module's slot is overwritten")
+		}
+	}
+	// and every load-module emission is followed on all paths by the store-module emission for the same index
+	for fn, e := range byFn {
+		for _, ld := range e[0] {
+			if len(ld.args) != 2 {
+				continue
+			}
+			via := func(x ssa.Instruction) bool {
+				for _, st := range e[1] {
+					if ssa.Instruction(st.ci) == x && len(st.args) == 1 && (st.args[0] == ld.args[1] || exprEq(st.args[0], ld.args[1])) {
+						return true
+					}
+				}
+				return false
+			}
+			_, ok := mustPassBefore(ld.ci, via, func(x ssa.Instruction) bool {
+				r, ok := x.(*ssa.Return)
+				if !ok || len(r.Results) == 0 {
+					return false
+				}
+				cst, isC := r.Results[len(r.Results)-1].(*ssa.Const)
+				return isC && cst.IsNil()
+			})
+			c.Check(rule, fmt.Sprintf("%s | emit(OpLoadModule, %s)", fnName(fn), describeAll(ld.args)), l.Pos(ld.ci.Pos()), ok, "followed on every successful path by the store-module emission of the same index", "an import site loads the module without the conditional store: if this site runs first it gets the constant itself (never copied, never cached), so builtin module values are shared between VMs and the module is initialised again elsewhere")
 		}
 	}
 	if n == 0 {
